@@ -230,8 +230,12 @@ fn drive<R: Read>(it: &mut TagIterator<R, FlatTag>, els: [(Ty, usize, [u8; 8], u
 
 macro_rules! doc_h {
     ($name:ident, $t1:ident, $n1:literal, $t2:ident, $n2:literal, $cut:expr, $chunks:expr, $cap:expr, $eof:expr) => {
+        doc_h!($name, $t1, $n1, $t2, $n2, $cut, $chunks, $cap, $eof, 10);
+    };
+    // growing a tiny buffer to 16 bytes runs Vec::resize's fill loop 16 times: unwind 18
+    ($name:ident, $t1:ident, $n1:literal, $t2:ident, $n2:literal, $cut:expr, $chunks:expr, $cap:expr, $eof:expr, $unwind:literal) => {
         #[kani::proof]
-        #[kani::unwind(10)]
+        #[kani::unwind($unwind)]
         #[kani::stub(<core::io::CustomOwner as core::ops::Drop>::drop, stubs::noop_custom_owner_drop)]
         #[kani::stub(std::hash::RandomState::new, stubs::fixed_random_state)]
         fn $name() {
@@ -265,9 +269,9 @@ doc_h!(cut_u3_b2_at8, U, 3, B, 2, 8, None, 32, true);
 doc_h!(chunk_u2_b1_1x7, U, 2, B, 1, 99, Some([1, 1, 1, 1, 1, 1]), 16, true);
 doc_h!(chunk_u2_b1_2_3_2, U, 2, B, 1, 99, Some([2, 3, 2, 9, 9, 9]), 16, true);
 doc_h!(chunk_u2_b1_4_1_2, U, 2, B, 1, 99, Some([4, 1, 2, 9, 9, 9]), 16, true);
-doc_h!(chunk_u2_b1_cap0, U, 2, B, 1, 99, Some([3, 9, 9, 9, 9, 9]), 0, true);
-doc_h!(chunk_u2_b1_cap1, U, 2, B, 1, 99, Some([9, 9, 9, 9, 9, 9]), 1, true);
-doc_h!(chunk_u2_b1_cap5, U, 2, B, 1, 99, Some([2, 2, 9, 9, 9, 9]), 5, true);
+doc_h!(chunk_u2_b1_cap0, U, 2, B, 1, 99, Some([3, 9, 9, 9, 9, 9]), 0, true, 18);
+doc_h!(chunk_u2_b1_cap1, U, 2, B, 1, 99, Some([9, 9, 9, 9, 9, 9]), 1, true, 18);
+doc_h!(chunk_u2_b1_cap5, U, 2, B, 1, 99, Some([2, 2, 9, 9, 9, 9]), 5, true, 18);
 doc_h!(chunk_u2_b1_pause, U, 2, B, 1, 99, Some([4, 0, 3, 9, 9, 9]), 16, false);
 doc_h!(chunkcut_u2_b1_at5_1s, U, 2, B, 1, 5, Some([1, 1, 1, 1, 1, 1]), 16, true);
-doc_h!(slice_u2_b1_cap0, U, 2, B, 1, 99, None, 0, true);
+doc_h!(slice_u2_b1_cap0, U, 2, B, 1, 99, None, 0, true, 18);
